@@ -54,10 +54,16 @@ inductive Event where
   | timeout
   /-- worker `w` is found `not is_alive()` by the poll in `_await_pool_results` -/
   | died (w : Nat)
+  /-- a child process `p` of the caller that is NOT one of this pool's workers (it existed before
+      the pool was created) stops being alive while the batch is running -/
+  | bystander (p : Nat)
 deriving Repr, DecidableEq
 
 def Event.isDone : Event → Bool
   | .done _ => true
+  | _ => false
+def Event.isBystander : Event → Bool
+  | .bystander _ => true
   | _ => false
 def Event.chunk? : Event → Option Nat
   | .done i => some i
@@ -128,26 +134,49 @@ def MapResult.get {ε β} (mr : MapResult ε β) : Outcome ε β :=
         if not jobs.ready() and not all(worker.is_alive() for worker in workers): raise RuntimeError
     return jobs.get()
     ```
-    A `done i` for a chunk that does not exist is never produced by a pool and is skipped. -/
-def awaitResults {α ε β} (f : α → Except ε β) (tasks : List (List α)) (hasTimeout : Bool) :
+    `run` is what a worker does with one task batch (`mapstar`/`starmapstar` on the unpickled
+    `(function, chunk)`).  A `done i` for a chunk that does not exist is never produced by a pool
+    and is skipped; the exit of a process that is not in `workers` is not looked at. -/
+def awaitResultsWith {α ε β} (run : List α → Except ε (List β)) (tasks : List (List α)) (hasTimeout : Bool) :
     MapResult ε β → List Event → Outcome ε β
   | mr, evs =>
     if mr.ready then mr.get else
     match evs with
     | [] => .blocked
-    | .timeout :: rest => if hasTimeout then .raised .timeout else awaitResults f tasks hasTimeout mr rest
+    | .timeout :: rest => if hasTimeout then .raised .timeout else awaitResultsWith run tasks hasTimeout mr rest
     | .died _ :: _ => .raised .workerDied
+    | .bystander _ :: rest => awaitResultsWith run tasks hasTimeout mr rest
     | .done i :: rest =>
       match tasks[i]? with
-      | none => awaitResults f tasks hasTimeout mr rest
-      | some chunk => awaitResults f tasks hasTimeout (mr.set i (comprehension f chunk)) rest
+      | none => awaitResultsWith run tasks hasTimeout mr rest
+      | some chunk => awaitResultsWith run tasks hasTimeout (mr.set i (run chunk)) rest
+
+/-- the usual case: the function object carries no state, a batch is a list comprehension -/
+def awaitResults {α ε β} (f : α → Except ε β) (tasks : List (List α)) (hasTimeout : Bool) :
+    MapResult ε β → List Event → Outcome ε β :=
+  awaitResultsWith (comprehension f) tasks hasTimeout
 
 /-- `pool.starmap_async(function, args)` / `pool.map_async(runner, commands)` followed by
     `_await_pool_results(jobs, workers, timeout)` on a pool of `workers` processes -/
+def poolRunWith {α ε β} (run : List α → Except ε (List β)) (args : List α) (workers : Nat)
+    (hasTimeout : Bool) (evs : List Event) : Outcome ε β :=
+  let cs := chunkSize args.length workers
+  awaitResultsWith run (getTasks cs args) hasTimeout (MapResult.init cs args.length) evs
+
 def poolRun {α ε β} (f : α → Except ε β) (args : List α) (workers : Nat) (hasTimeout : Bool)
     (evs : List Event) : Outcome ε β :=
-  let cs := chunkSize args.length workers
-  awaitResults f (getTasks cs args) hasTimeout (MapResult.init cs args.length) evs
+  poolRunWith (comprehension f) args workers hasTimeout evs
+
+/-! ### antiSMASH: which children are the pool's workers -/
+
+/-- `existing = set(multiprocessing.active_children())` before `Pool(cpus)`, then
+    `workers = [proc for proc in multiprocessing.active_children() if proc not in existing]` -/
+def poolWorkers (before after : List Nat) : List Nat := after.filter fun p => !before.contains p
+
+/-- a child process of the caller seen `not is_alive()` during the wait, as the event the wait
+    loop reacts to: only members of `workers` are ever polled -/
+def classifyExit (before after : List Nat) (p : Nat) : Event :=
+  if (poolWorkers before after).contains p then .died p else .bystander p
 
 /-- `if not cpus: cpus = get_config().cpus` -/
 def resolveCpus (configCpus cpus : Nat) : Nat := if cpus = 0 then configCpus else cpus
@@ -201,5 +230,76 @@ def parallelExecute {α ε} (configCpus : Nat) (runner : α → Except ε Int) (
   let cpus := resolveCpus configCpus cpus
   if cpus = 0 then .raised .noProcesses
   else poolRun runner commands cpus hasTimeout evs
+
+/-! ### what the parent really observes: process exits, not yet attributed to the pool -/
+
+/-- raw observations: completions, the deadline, and "child process `p` of the caller is no
+    longer alive" (any child: a worker of this pool or something the caller started earlier) -/
+inductive Observed where
+  | done (i : Nat)
+  | timeout
+  | exit (p : Nat)
+deriving Repr, DecidableEq
+
+def Observed.toEvent (before after : List Nat) : Observed → Event
+  | .done i => .done i
+  | .timeout => .timeout
+  | .exit p => classifyExit before after p
+
+/-- `parallel_function` in a process whose children were `before` when the helper was entered and
+    `after` once the pool existed -/
+def parallelFunctionObserved {α ε β} (configCpus : Nat) (before after : List Nat) (f : α → Except ε β)
+    (args : List α) (cpus : Nat) (hasTimeout : Bool) (obs : List Observed) : Outcome ε β :=
+  parallelFunction configCpus f args cpus hasTimeout (obs.map (Observed.toEvent before after))
+
+/-! ### calls that read and update shared state (`fix_record_name_id` and `all_record_ids`) -/
+
+/-- `for a in args: function(a, state)` in one process: every call sees the updates of the
+    calls before it -/
+def threaded {σ α ε β} (g : σ → α → Except ε (σ × β)) : σ → List α → Except ε (σ × List β)
+  | s, [] => .ok (s, [])
+  | s, a :: rest =>
+    match g s a with
+    | .error e => .error e
+    | .ok (s', b) =>
+      match threaded g s' rest with
+      | .error e => .error e
+      | .ok (s'', bs) => .ok (s'', b :: bs)
+
+/-- one task batch in a worker when the function object (a `functools.partial`) carries the state:
+    the batch is unpickled once, so its calls share one *copy* of the state as it was at submission;
+    the copy is dropped with the batch -/
+def shippedChunk {σ α ε β} (g : σ → α → Except ε (σ × β)) (s₀ : σ) (chunk : List α) : Except ε (List β) :=
+  match threaded g s₀ chunk with
+  | .error e => .error e
+  | .ok (_, bs) => .ok bs
+
+/-- `parallel_function(partial(g, state=s₀), args)`: in-process (one cpu) the partial holds the
+    caller's own state object, so the loop is `threaded`; through the pool every batch gets a copy -/
+def parallelFunctionShipped {σ α ε β} (configCpus : Nat) (g : σ → α → Except ε (σ × β)) (s₀ : σ)
+    (args : List α) (cpus : Nat) (hasTimeout : Bool) (evs : List Event) : Outcome ε β :=
+  let k := resolveCpus configCpus cpus
+  if k = 1 then
+    match threaded g s₀ args with
+    | .ok (_, bs) => .returned (bs.map some)
+    | .error e => .raised (.task e)
+  else if k = 0 then .raised .noProcesses
+  else poolRunWith (shippedChunk g s₀) args k hasTimeout evs
+
+/-- the clean-up stage of `pre_process_sequences` as it is written: the state-dependent step
+    (`fix_record_name_id` with the shared id set) runs as a loop **in the parent**, only the
+    stateless step `h` (`sanitise_sequence`) goes through `parallel_function`
+    (`if len(sequences) == 1: [h(x)]` is the same loop) -/
+def preProcessStage {σ α ε β γ} (configCpus : Nat) (g : σ → α → Except ε (σ × β)) (s₀ : σ)
+    (h : β → Except ε γ) (args : List α) (cpus : Nat) (hasTimeout : Bool) (evs : List Event) :
+    Outcome ε γ :=
+  match threaded g s₀ args with
+  | .error e => .raised (.task e)
+  | .ok (_, bs) =>
+    if bs.length = 1 then
+      match comprehension h bs with
+      | .ok l => .returned (l.map some)
+      | .error e => .raised (.task e)
+    else parallelFunction configCpus h bs cpus hasTimeout evs
 
 end ASV.Parallel
